@@ -402,6 +402,13 @@ def parseBlock (c : Chomp) (ls : List Bytes) : Bytes :=
   | .strip => dropTrailingNL content
   | .clip => let t := dropTrailingNL content; if t.isEmpty then [] else t ++ [10]
 
+/-- a YAML parser rejects the block when a later non-empty line is indented less than the
+first non-empty one (the driver answers `err` then) -/
+def blockIllIndented (ls : List Bytes) : Bool :=
+  match ls.find? (fun l => l.any (· != 32)) with
+  | some l => ls.any fun l' => l'.any (· != 32) && decide (leadingSpaces l' < leadingSpaces l)
+  | none => false
+
 /-- the repaired `blockLiteralSafe`: additionally reject strings made only of line breaks and
 strings whose first non-empty line begins with a blank (they need an indentation indicator) -/
 def blockLiteralSafeFixed (s : Bytes) : Bool :=
